@@ -180,7 +180,7 @@ def execute(world, opsource):
                         resync(robot, sess)
                     nops += 1
                     i += 1
-                if track and not res.violations and res.ops:
+                if track and not res.violations and res.ops and not res.ended_by_rejection:
                     d = check_composition(robot, sess, ftol, name_map)
                     if d:
                         fail("C01.composition", len(res.ops) - 1, res.ops[-1], "ok", "at the end of the run: " + d)
